@@ -44,6 +44,9 @@ struct Obs {
     iter_ref: Vec<Vec<f64>>,
     iter_owned_adapted: Vec<Vec<f64>>,
     iter_ref_adapted: Vec<Vec<f64>>,
+    iter_skip1: Vec<Vec<f64>>,
+    iter_step2: Vec<Vec<f64>>,
+    iter_nth_last: Option<Vec<f64>>,
     empty_indef_len: usize,
     empty_int_len: usize,
 }
@@ -57,7 +60,7 @@ fn seg_flat<U: Flat>(s: &Segment<U>) -> Vec<f64> {
 fn observe<T>(ends: &[f64], pool: &[f64], k0: Knot, pq: &[(usize, f64)], ts: &[f64]) -> Result<Obs, String>
 where
     T: Nums + HasIntegral + Copy,
-    T::IntegralOf: Translate + Evaluate + Flat + Clone,
+    T::IntegralOf: Translate + Evaluate + Flat + Clone + PartialEq + std::fmt::Debug,
 {
     let pw: Piecewise<T> = build_pw(ends, pool);
     crate::runner::lib(|| {
@@ -78,6 +81,10 @@ where
             // the same through iterator adaptors whose size_hint lower bound is 0
             iter_owned_adapted: Segment::integral_iter(pw.segments.clone().into_iter().filter(|_| true), k0).map(|s| seg_flat(&s)).collect(),
             iter_ref_adapted: Segment::integral_iter_ref(pw.segments.iter().skip_while(|_| false), k0).map(|s| seg_flat(&s)).collect(),
+            // the RESULT iterator consumed in other ways than next(): skip, step_by, nth
+            iter_skip1: Segment::integral_iter_ref(pw.segments.iter(), k0).skip(1).map(|s| seg_flat(&s)).collect(),
+            iter_step2: Segment::integral_iter(pw.segments.clone(), k0).step_by(2).map(|s| seg_flat(&s)).collect(),
+            iter_nth_last: Segment::integral_iter_ref(pw.segments.iter(), k0).nth(pw.segments.len().saturating_sub(1)).map(|s| seg_flat(&s)),
             empty_indef_len: empty.indefinite().segments.len(),
             empty_int_len: empty.integral(k0).segments.len(),
         }
@@ -86,7 +93,7 @@ where
 fn obs_poly<P>(e: &[f64], p: &[f64], k: Knot, pq: &[(usize, f64)], ts: &[f64]) -> Result<Obs, String>
 where
     P: Nums + HasIntegral + Copy,
-    P::IntegralOf: Translate + Evaluate + Flat + Clone,
+    P::IntegralOf: Translate + Evaluate + Flat + Clone + PartialEq + std::fmt::Debug,
 {
     observe::<P>(e, p, k, pq, ts)
 }
@@ -94,7 +101,7 @@ fn obs_log<P>(e: &[f64], p: &[f64], k: Knot, pq: &[(usize, f64)], ts: &[f64]) ->
 where
     P: Nums + Copy,
     Log<P>: HasIntegral,
-    <Log<P> as HasIntegral>::IntegralOf: Translate + Evaluate + Flat + Clone,
+    <Log<P> as HasIntegral>::IntegralOf: Translate + Evaluate + Flat + Clone + PartialEq + std::fmt::Debug,
 {
     observe::<Log<P>>(e, p, k, pq, ts)
 }
@@ -283,6 +290,14 @@ impl Prop for C11 {
         }
         if obs.iter_owned_adapted != obs.iter_owned || obs.iter_ref_adapted != obs.iter_ref {
             fail!("{tyname}: integral_iter / integral_iter_ref fed through an iterator adaptor (filter / skip_while that keep everything) yield {:?} / {:?} instead of {:?}", obs.iter_owned_adapted, obs.iter_ref_adapted, obs.iter_owned);
+        }
+        {
+            let all = &obs.iter_ref;
+            let skip1: Vec<Vec<f64>> = all.iter().skip(1).cloned().collect();
+            let step2: Vec<Vec<f64>> = all.iter().step_by(2).cloned().collect();
+            if obs.iter_skip1 != skip1 || obs.iter_step2 != step2 || obs.iter_nth_last.as_ref() != all.last() {
+                fail!("{tyname}: the segment-integration iterators give different pieces when consumed through skip(1) / step_by(2) / nth(last) than through next(): {:?} / {:?} / {:?} vs all pieces {:?}", obs.iter_skip1, obs.iter_step2, obs.iter_nth_last, all);
+            }
         }
         if !crate::model::nums_eq(&obs.ind_flat[0], &obs.seg0_indef_flat) {
             fail!("{tyname}.indefinite(): first piece {:?} is not segments[0].indefinite() = {:?}", obs.ind_flat[0], obs.seg0_indef_flat);
